@@ -150,13 +150,19 @@ HOp make_load(RunCtx& ctx, Rng& rng, int session)
         Model m = gen_model(rng, cfg);
         if (rng.chance(0.25))
             m.gdecls[0].text = long_comment(rng) + m.gdecls[0].text;
+        if (rng.chance(0.15)) {
+            // a model whose meaning is wrong (duplicate names, missing system, ...): diagnostics and recovery paths
+            int f = rng.below(MF_COUNT);
+            if (apply_model_fault(m, f, rng))
+                op.what = std::string{"model-fault:"} + model_fault_name(f) + " ";
+        }
         if (k < 75) {
             XmlKnobs kn = draw_knobs(rng);
             c.bytes = render_xml(m, kn, rng);
-            op.what = "generated-xml";
+            op.what += "generated-xml";
         } else {
             c.bytes = render_xta(m);
-            op.what = "generated-xta";
+            op.what += "generated-xta";
             xml = false;
         }
     }
